@@ -117,7 +117,7 @@ def sym_eval(s, env, interp=X.INTERP[0]):
         return out
     if isinstance(s, sympy.Pow):
         base, ex = sym_eval(s.args[0], env, interp), sym_eval(s.args[1], env, interp)
-        if ex.denominator != 1 or (base == 0 and ex < 0):
+        if ex.denominator != 1 or (base == 0 and ex < 0) or abs(ex) > 64:
             raise X.Undefined()
         return base ** int(ex)
     if isinstance(s, (sympy.Max, sympy.Min)):
@@ -142,6 +142,8 @@ def sym_eval(s, env, interp=X.INTERP[0]):
             return Fraction(interp[0](X.ARR1.index(name), int(idx[0])))
         if name in X.ARR2 and len(idx) == 2:
             return Fraction(interp[1](X.ARR2.index(name), int(idx[0]), int(idx[1])))
+        if name in X.ARR3 and len(idx) == 3:
+            return Fraction(interp[2](X.ARR3.index(name), int(idx[0]), int(idx[1]), int(idx[2])))
     raise X.Undefined()
 
 
@@ -158,7 +160,7 @@ def translation_ok(b, trees):
         if isinstance(s, tuple):
             continue
         vs = X.variables(e)
-        has_arr = bool({"arr1", "arr2"} & X.ops(e))
+        has_arr = bool({"arr1", "arr2", "arr3"} & X.ops(e))
         for interp in (X.INTERP if has_arr else X.INTERP[:1]):
             for vals in itertools.product(range(-3, 4), repeat=len(vs)):
                 env = [0] * len(X.VARS)
@@ -217,7 +219,7 @@ def check_solutions(e1, e2, sols, x=0):
     if not isinstance(sols, (set, frozenset)):
         return None
     others = [v for v in sorted(set(X.variables(e1)) | set(X.variables(e2))) if v != x]
-    has_arr = bool({"arr1", "arr2"} & (X.ops(e1) | X.ops(e2)))
+    has_arr = bool({"arr1", "arr2", "arr3"} & (X.ops(e1) | X.ops(e2)))
     for sol in sols:
         for k, interp in enumerate(X.INTERP if has_arr else X.INTERP[:1]):
             for vals in X.grid(len(others)):
@@ -472,6 +474,8 @@ def run_evals(ctx, b, exprs):
         d, v = out[2 * k].split()
         try:
             pv, pd = X.evalF(e, env), True
+        except X.TooBig:
+            continue
         except X.Undefined:
             pv, pd = None, False
         if pd != (d == "1") or (pd and pv != int(v)):
@@ -531,7 +535,7 @@ def replay_finding(b, f):
 def run(chk):
     chk.cov["rule"] = (
         "pairs of integer expressions (<= 12 nodes each, degree <= 6 after translation) over i,j,n, arrays a,c (rank 1), "
-        "b (rank 2): second member is a value-preserving rewriting of the first, optionally shifted by a constant / a "
+        "b (rank 2), t (rank 3): second member is a value-preserving rewriting of the first, optionally shifted by a constant / a "
         "variable, or independent; polynomial stream (+,-,*,unary minus,** literal) and extended stream (also /, MOD, MIN, "
         "MAX, array accesses, symbolic exponent); MIN/MAX-sensitive pairs; pairs around left-nested powers (x**k)**m with literal "
         "and symbolic exponents (right reading x**(k*m), wrong reading x**(k**m), shifted); expressions to expand; equations to solve for i "
@@ -644,9 +648,11 @@ def run(chk):
         if still:
             chk.known(f["what"])
     chk.cov["anchored_line_coverage_measured_once"] = (
-        "coverage.py over one quick run: symbolic_maths.py 92% (missed: VisitorError return of never_equal, ImageSet/Union/"
-        "non-FiniteSet branches of solve_equal_for), sympy_writer.py 80% (missed: structure accesses, named arguments, "
-        "declared-bounds/unknown-extent indices, whole-array references), sympy_reader.py 67% (missed: array sections)")
+        "coverage.py over one quick run: symbolic_maths.py 95% (missed: VisitorError return of never_equal, the ImageSet "
+        "branch of solve_equal_for - needs a transcendental function, not reachable from integer expressions - and the "
+        "ValueError branch; Complexes, ConditionSet, Union, EmptySet and FiniteSet are exercised), sympy_writer.py 80% "
+        "(missed: structure accesses, named arguments, declared-bounds/unknown-extent indices, whole-array references), "
+        "sympy_reader.py 67% (missed: array sections)")
     chk.cov["distribution"] = dict(sorted(ctx.dist.items()))
     chk.cov["failing_inputs_attributed_to_known_findings"] = ctx.known_hits
     chk.cov["real_code_seconds"] = round(time.time() - t0, 1)
